@@ -32,12 +32,14 @@
 EXTENDS TfmCanon, Json
 
 CONSTANTS Mode, NC, MaxBody, MaxPrefix, SkipBytes, Variants,
+          DimVals, MaxW, MaxH,   \* "dims": the values of the tables, the largest number of widths / heights
           DomT,    \* largest remainder an input char_info carries (= Threshold, except in padded replays)
           PadK,    \* REPLAY only: padding steps put in front of the body (255 - DomT); else 0
           Waive    \* scope clauses waived (domains of the negative controls): "stops", "orphans", "longheader"
 
-VARIABLES orig, f, pl, g, stage, trip
-vars == <<orig, f, pl, g, stage, trip>>
+VARIABLES shape,   \* the part of the choice made by Init (so that TLC's workers share the enumeration)
+          orig, f, pl, g, stage, trip
+vars == <<shape, orig, f, pl, g, stage, trip>>
 
 C == 1 .. NC
 Hd0 == <<<<1, 2, 3, 4>>, <<0, 160, 0, 0>>>> \o EncStr(Unspecified, 10) \o EncStr(Unspecified, 5) \o <<<<0, 0, 0, 0>>>>
@@ -59,51 +61,55 @@ PadC == NC + 1                                       \* the character whose chai
 
 \* n body length, sk its skip bytes, r prefix length, tg prefix targets, hasb boundary char (= NC),
 \* lb left boundary target (-1: no pointer word), ent char -> -1 | remainder, v content variant,
-\* ex the characters that exist.  Indices are those of the unpadded layout; Mv shifts them.
-Mv(x, r) == IF x < r THEN x ELSE x + PadK
-LkFont(n, sk, r, tg, hasb, lb, ent, v, ex) ==
-  LET b    == IF hasb THEN NC ELSE 0
-      pre  == [j \in 1 .. r |-> <<IF hasb THEN 255 ELSE 254, b, Hi(Mv(tg[j], r)), Lo(Mv(tg[j], r))>>]
-      pad  == [j \in 1 .. PadK |-> <<IF j = PadK THEN 128 ELSE 0, PadC, 0, PadC>>]
+\* ex the characters that exist, K padding steps.  Indices are those of the unpadded layout; Mv shifts them.
+LkFontK(K, n, sk, r, tg, hasb, lb, ent, v, ex) ==
+  LET Mv(x) == IF x < r THEN x ELSE x + K
+      b    == IF hasb THEN NC ELSE 0
+      pre  == [j \in 1 .. r |-> <<IF hasb THEN 255 ELSE 254, b, Hi(Mv(tg[j])), Lo(Mv(tg[j]))>>]
+      pad  == [j \in 1 .. K |-> <<IF j = K THEN 128 ELSE 0, PadC, 0, PadC>>]
       body == [j \in 1 .. n |-> BodyWord(sk[j], j, v)]
-      lbw  == IF lb < 0 THEN <<>> ELSE <<<<255, 0, Hi(Mv(lb, r)), Lo(Mv(lb, r))>>>>
+      lbw  == IF lb < 0 THEN <<>> ELSE <<<<255, 0, Hi(Mv(lb)), Lo(Mv(lb))>>>>
       cw(c) == IF c = PadC THEN <<1, 0, 1, r>>
-               ELSE <<IF c \in ex THEN 1 ELSE 0, 0, IF ent[c] < 0 THEN 0 ELSE 1, IF ent[c] < 0 THEN 0 ELSE Mv(ent[c], r)>>
+               ELSE <<IF c \in ex THEN 1 ELSE 0, 0, IF ent[c] < 0 THEN 0 ELSE 1, IF ent[c] < 0 THEN 0 ELSE Mv(ent[c])>>
   IN [Base EXCEPT !.lk = pre \o pad \o body \o lbw, !.k = Kerns,
-                  !.ec = IF PadK > 0 THEN PadC ELSE NC,
-                  !.ci = [c \in 1 .. (IF PadK > 0 THEN PadC ELSE NC) |-> cw(c)]]
+                  !.ec = IF K > 0 THEN PadC ELSE NC,
+                  !.ci = [c \in 1 .. (IF K > 0 THEN PadC ELSE NC) |-> cw(c)]]
 
+LkShapes == (0 .. MaxBody) \X (0 .. MaxPrefix) \X BOOLEAN \X Variants
 PickLk ==
-  \E n \in 0 .. MaxBody, r \in 0 .. MaxPrefix, hasb \in BOOLEAN, v \in Variants :
+  LET n == shape[1]   r == shape[2]   hasb == shape[3]   v == shape[4] IN
   \E sk \in [1 .. n -> (SkipBytes \cup (IF "stops" \in Waive THEN {200} ELSE {}))] :
   \E tg \in [1 .. r -> r .. (r + n)] :
   \E lb \in {-1} \cup (0 .. (r + n)) :
   \E ent \in [C -> {-1} \cup (0 .. DomT)] :
   \E ex \in SUBSET C :
-    LET x == LkFont(n, sk, r, tg, hasb, lb, ent, v, ex) IN
+    \* padding is in scope by construction: the scope of the font is decided without it
     /\ \A c \in C : ent[c] < r + n
-    /\ Admit(x)
-    /\ f' = x
+    /\ Admit(LkFontK(0, n, sk, r, tg, hasb, lb, ent, v, ex))
+    /\ f' = LkFontK(PadK, n, sk, r, tg, hasb, lb, ent, v, ex)
 
 -----------------------------------------------------------------------------
 (* "dims" *)
-DimVals == {0, 3, 5, -2}
 DimFont(wt, ht, dt, wi, hi, di) ==
   [Base EXCEPT !.w = <<0>> \o wt, !.h = <<0>> \o ht, !.d = <<0>> \o dt, !.i = <<0>> \o dt,
                !.ci = [c \in C |-> <<wi[c], 16 * hi[c] + di[c], 4 * di[c], 0>>]]
+DV == DimVals \cup {-2}          \* a config file cannot write a negative number
+DimShapes == (1 .. MaxW) \X (0 .. MaxH) \X (0 .. 1)
 PickDims ==
-  \E nw \in 1 .. 3, nh \in 0 .. 2, nd \in 0 .. 1 :
-  \E wt \in [1 .. nw -> DimVals], ht \in [1 .. nh -> DimVals], dt \in [1 .. nd -> DimVals] :
+  LET nw == shape[1]   nh == shape[2]   nd == shape[3] IN
+  \E wt \in [1 .. nw -> DV], ht \in [1 .. nh -> DV], dt \in [1 .. nd -> DV] :
   \E wi \in [C -> 0 .. nw], hi \in [C -> 0 .. nh], di \in [C -> 0 .. nd] :
     LET x == DimFont(wt, ht, dt, wi, hi, di) IN Admit(x) /\ f' = x
 
 -----------------------------------------------------------------------------
 (* "tags" *)
 Recipes == {<<0, 0, 0, 1>>, <<1, 0, 2, 2>>, <<0, NC, 0, NC>>}
+\* ex: character -> width index (0: missing, 1: width 5, 2: width 0)
 TagFont(ex, tg, rm, rec) ==
-  [Base EXCEPT !.e = rec, !.ci = [c \in C |-> <<IF c \in ex THEN 1 ELSE 0, 0, tg[c], rm[c]>>]]
+  [Base EXCEPT !.w = <<0, 5, 0>>, !.e = rec, !.ci = [c \in C |-> <<ex[c], 0, tg[c], rm[c]>>]]
+TagShapes == [C -> {0, 1, 2}]
 PickTags ==
-  \E ex \in SUBSET C :
+  LET ex == shape IN
   \E tg \in [C -> {0, 2, 3}], rm \in [C -> 0 .. NC] :
   \E ne \in 0 .. 2 : \E rec \in [1 .. ne -> Recipes] :
     LET x == TagFont(ex, tg, rm, rec) IN
@@ -115,22 +121,25 @@ PickTags ==
 Strs == {<<>>, <<65>>, <<97, 32, 98>>, <<32, 32, 120>>, <<120, 32, 32>>}
 HdrFont(lh, s1, s2, w17, extra) ==
   [Base EXCEPT !.hd = SubSeq(<<<<9, 8, 7, 6>>, <<0, 160, 0, 0>>>> \o EncStr(s1, 10) \o EncStr(s2, 5) \o <<w17>> \o extra, 1, lh)]
+HdrShapes == {2, 3, 11, 12, 13, 16, 17, 18, 19, 20, 21, 22}
 PickHdr ==
-  \E lh \in {2, 3, 11, 12, 13, 16, 17, 18, 19, 20, 21, 22} :
+  LET lh == shape IN
   \E s1 \in Strs, s2 \in Strs, w17 \in {<<0, 0, 0, 0>>, <<128, 0, 0, 3>>, <<0, 9, 9, 200>>, <<255, 1, 0, 17>>} :
     LET x == HdrFont(lh, s1, s2, w17, <<<<0, 0, 0, 1>>, <<255, 254, 253, 252>>, <<0, 0, 0, 3>>, <<0, 0, 0, 4>>>>)
     IN Admit(x) /\ f' = x
 
 -----------------------------------------------------------------------------
-Init == /\ orig = Base /\ f = Base /\ pl = <<>> /\ g = Base /\ trip = 1 /\ stage = "pick"
+Init == /\ shape \in (CASE Mode = "lk" -> LkShapes [] Mode = "dims" -> DimShapes [] Mode = "tags" -> TagShapes
+                          [] OTHER -> HdrShapes)
+        /\ orig = Base /\ f = Base /\ pl = <<>> /\ g = Base /\ trip = 1 /\ stage = "pick"
 
 Pick == /\ stage = "pick"
         /\ CASE Mode = "lk" -> PickLk [] Mode = "dims" -> PickDims [] Mode = "tags" -> PickTags [] OTHER -> PickHdr
-        /\ orig' = f' /\ stage' = "tfm" /\ UNCHANGED <<pl, g, trip>>
+        /\ orig' = f' /\ stage' = "tfm" /\ UNCHANGED <<shape, pl, g, trip>>
 
-Emit  == /\ stage = "tfm" /\ pl' = ToPl(f) /\ stage' = "pl" /\ UNCHANGED <<orig, f, g, trip>>
-Build == /\ stage = "pl" /\ g' = FromPl(pl) /\ stage' = "done" /\ UNCHANGED <<orig, f, pl, trip>>
-Again == /\ stage = "done" /\ trip = 1 /\ f' = g /\ trip' = 2 /\ stage' = "tfm" /\ UNCHANGED <<orig, pl, g>>
+Emit  == /\ stage = "tfm" /\ pl' = ToPl(f) /\ stage' = "pl" /\ UNCHANGED <<shape, orig, f, g, trip>>
+Build == /\ stage = "pl" /\ g' = FromPl(pl) /\ stage' = "done" /\ UNCHANGED <<shape, orig, f, pl, trip>>
+Again == /\ stage = "done" /\ trip = 1 /\ f' = g /\ trip' = 2 /\ stage' = "tfm" /\ UNCHANGED <<shape, orig, pl, g>>
 
 Next == Pick \/ Emit \/ Build \/ Again
 Spec == Init /\ [][Next]_vars
@@ -176,6 +185,6 @@ Rle(s) == IF s = <<>> THEN <<>>
                ELSE <<s[1]>> \o Rle(Tail(s))
 Show(x) == [x EXCEPT !.lk = Rle(x.lk)]
 
-DbgTwoRedirects == Done1 => ~(NL(g) > 2 /\ IsStop(g, 0) /\ IsStop(g, 1) /\ Lbe(g) >= 0 /\ Rbc(g) # NonChar)
+FirstTripOnly == trip = 1            \* REPLAY configs: nothing to print on the second trip
 EmitCase == Done1 => PrintT(<<"REPLAY", ToJson([f |-> Show(orig), want |-> Show(g)])>>)
 =============================================================================
